@@ -14,7 +14,7 @@ class GPSJastrow:
 
         assert X_support.shape[1:] == (2, 3)
         # Xsupport.shape is nsupport,2,3
-        self.parameters["Xsupport"] = X_support
+        self.parameters["Xsupport"] = np.asarray(X_support, dtype=float)
         self.parameters["alpha"] = np.zeros(self.n_support)
         self.parameters["f"] = np.array([f], dtype=float)
 
